@@ -7,15 +7,27 @@
     ddnnife/src/ddnnf/anomalies/sat.rs
 -/
 import DdnnfVerif.Model.Basic
+import DdnnfVerif.Model.Features
 namespace Ddnnf
 
 /-- `Ddnnf.literals.contains_key(l)`: a leaf for literal `l` exists in the node array -/
 def hasLit (nodes : List NType) (l : Int) : Bool := nodes.contains (.lit l)
 
-/-- `calculate_core`: literals in `-n..=n` whose leaf exists while the complementary leaf does not -/
-def coreOf (nodes : List NType) (n : Nat) : List Int :=
+/-- the syntactic core of ddnnife before the fix of `calculate_core`: literals in `-n..=n` whose
+leaf exists while the complementary leaf does not (kept for reference and for the proofs) -/
+def coreSynOf (nodes : List NType) (n : Nat) : List Int :=
   ((List.range (2 * n + 1)).map (fun (k : Nat) => (k : Int) - (n : Int))).filter
     (fun f => hasLit nodes f && !hasLit nodes (-f))
+
+/-- `calculate_core`: literals in `-n..=n` whose leaf exists while the complementary leaf does not
+exist or is part of no configuration (partial derivative 0) -/
+def coreOf (nodes : List NType) (n : Nat) : List Int :=
+  let pd := annotatePD nodes
+  ((List.range (2 * n + 1)).map (fun (k : Nat) => (k : Int) - (n : Int))).filter
+    (fun f => hasLit nodes f &&
+      (match leafIx nodes (-f) with
+       | some i => pd.getD i 0 == 0
+       | none => true))
 
 /-! ### default strategy: recompute every node with the complementary leaves set to 0 -/
 
@@ -70,8 +82,7 @@ def markerCount (nodes : List NType) (negs : List Int) : Nat :=
 
 /-! ### `execute_query` with its dispatch on the length of the list -/
 
-def execQuery (nodes : List NType) (n : Nat) (A : List Int) : Nat :=
-  let core := coreOf nodes n
+def execQueryCore (core : List Int) (nodes : List NType) (A : List Int) : Nat :=
   let rc := count nodes (rootIx nodes)
   match A with
   | [] => rc
@@ -89,6 +100,9 @@ def execQuery (nodes : List NType) (n : Nat) (A : List Int) : Nat :=
         else
           countA nodes (A'.map (fun f => -f)) (rootIx nodes)
 
+def execQuery (nodes : List NType) (n : Nat) (A : List Int) : Nat :=
+  execQueryCore (coreOf nodes n) nodes A
+
 /-! ### SAT (`sat_propagate`): the set of marked nodes is the least fixpoint of
   leaf ¬f marked; and: some child marked; or: some child marked and all children marked or count 0 -/
 
@@ -103,10 +117,12 @@ def fSatMark (negs : List Int) : NType → (Nat → Bool × Nat) → Bool × Nat
 def satMarks (nodes : List NType) (negs : List Int) : Array (Bool × Nat) :=
   table (false, 0) (fSatMark negs) nodes
 
-def satQuery (nodes : List NType) (n : Nat) (A : List Int) : Bool :=
-  let core := coreOf nodes n
+def satQueryCore (core : List Int) (nodes : List NType) (A : List Int) : Bool :=
   if A.any (fun f => core.contains (-f)) then false
   else !((satMarks nodes (A.map (fun f => -f))).getD (rootIx nodes) (false, 0)).1
+
+def satQuery (nodes : List NType) (n : Nat) (A : List Int) : Bool :=
+  satQueryCore (coreOf nodes n) nodes A
 
 /-! ### core / dead with assumptions (`core_dead_with_assumptions`) -/
 
